@@ -762,10 +762,15 @@ class RecorderK(Kind):
         self.name = name
 
     def build(self, ctx, mk):
-        return Recorder(self.name)
+        r = Recorder(self.name)
+        ctx.__dict__.setdefault("recorders", []).append(r)  # the recorded callables of this path (ghost builtins inspect them)
+        return r
 
     def sort(self):
         raise EngineLimit("RecorderK has no single sort")
+
+    def __repr__(self):
+        return "recorded-%s" % self.name
 
 
 class TupleK(Kind):
@@ -956,3 +961,61 @@ class EnumSeq:
     def __init__(self, seq, start=0):
         self.seq = seq
         self.start = start
+
+
+class YieldSeq:
+    """The sequence of values yielded so far by a generator under verification when yields happen inside a loop over a
+    symbolic domain: a count and, per tuple component, an array index -> value.  After the havoc at a loop head the arrays
+    are fresh constants of a new epoch (the loop invariant restates what they hold)."""
+
+    _epochs = [0]
+
+    def __init__(self, ctx):
+        self.ctx = ctx
+        self.count = z3.IntVal(0)
+        self.width = None
+        self.arrays = {}
+        self._new_epoch()
+
+    def _new_epoch(self):
+        YieldSeq._epochs[0] += 1
+        self.epoch = YieldSeq._epochs[0]
+        self.arrays = {}
+
+    def _arr(self, k, sort):
+        key = (k, str(sort))
+        if key not in self.arrays:
+            self.arrays[key] = z3.Const("yield!%d!%d!%s" % (self.epoch, k, sort), z3.ArraySort(z3.IntSort(), sort))
+        return key, self.arrays[key]
+
+    def push(self, value):
+        comps = list(value) if isinstance(value, tuple) else [value]
+        if self.width is None:
+            self.width = len(comps) if isinstance(value, tuple) else 0
+        for k, c in enumerate(comps):
+            if isinstance(c, Obj):
+                t = c.ref
+            elif isinstance(c, bool):
+                t = z3.BoolVal(c)
+            elif isinstance(c, int):
+                t = z3.IntVal(c)
+            elif isinstance(c, z3.ExprRef):
+                t = c
+            else:
+                raise EngineLimit("yield of %r inside a loop over a symbolic domain" % (c,))
+            key, arr = self._arr(k, t.sort())
+            self.arrays[key] = z3.Store(arr, self.count, t)
+        self.count = self.count + 1
+
+    def havoc(self):
+        self._new_epoch()
+        self.count = self.ctx.fresh("yield!count", z3.IntSort())
+        self.ctx.assume(self.count >= 0)
+
+    def item(self, j, *kinds):
+        """the j-th yielded value read with the given component kinds (one kind: the value itself, several: a tuple)"""
+        out = []
+        for k, kind in enumerate(kinds):
+            _, arr = self._arr(k, kind.sort())
+            out.append(kind.wrap(self.ctx, z3.Select(arr, j)))
+        return tuple(out) if len(out) != 1 else out[0]
